@@ -609,7 +609,7 @@ func c36Worker(w *WorkerCtx) {
 				vc := v
 				cu, _ := json.Marshal(map[string]any{"job": job, "report": report})
 				rf := &ReplayFile{Property: "C36", Oracle: v.Oracle, VerifSeed: int64(w.Seed), Tier: w.Tier, Minimised: false, Kind: "c36", Custom: cu, Violation: &vc}
-				res.Replay = WriteReplay(filepath.Join(verifDir(), "replay"), rf, fmt.Sprintf("%s-%s-%d", job.Mode, job.Engine, job.Seed))
+				res.Replay = WriteReplay(filepath.Join(outDir(), "replay"), rf, fmt.Sprintf("%s-%s-%d", job.Mode, job.Engine, job.Seed))
 				res.Violations[0], res.Violations[len(res.Violations)-1] = res.Violations[len(res.Violations)-1], res.Violations[0]
 				stop = true
 			}
